@@ -8,6 +8,9 @@ Open Scope N_scope.
 
 Definition crc (b : bytes) : N := crc32_table b.
 
+(* per-case string table of the case files: (tb T k) is the k-th byte string of the case *)
+Definition tb (T : list bytes) (k : N) : bytes := nth (N.to_nat k) T [].
+
 Inductive mop :=
 (* OpenBackupSnapshot on a store: its dump, the request, what validateBackupProposalSystemEntries
    answers on the kept entries of each cut, the stream read to the end (or the error class) *)
